@@ -291,7 +291,10 @@ let vfmode file =
         let s = get () in
         let arg () = int_of_string (String.sub tok 3 (String.length tok - 3)) in
         (match String.sub tok 0 (min 3 (String.length tok)) with
-         | "ps:" -> let (r, s') = pcm_seek s (zi (arg ())) in st := Some s'; show tok (iz r) (-1) time implraw
+         | "ps:" ->
+             (* model-only line: do the hypotheses of theorem C07_pcm_seek_checked hold for this seek? *)
+             Printf.printf "thm %s %d\n" tok (if seek_hyps s (zi (arg ())) then 1 else 0);
+             let (r, s') = pcm_seek s (zi (arg ())) in st := Some s'; show tok (iz r) (-1) time implraw
          | "pp:" -> let (r, s') = pcm_seek_page s (zi (arg ())) in st := Some s'; show tok (iz r) (-1) time implraw
          | "rs:" -> let (r, s') = raw_seek s (zi (arg ())) in st := Some s'; show tok (iz r) (-1) time implraw
          | "ts:" | "tp:" ->
